@@ -204,7 +204,8 @@ def render(case, prefix, pkgname):
 
 # ------------------------------------------------------------------------------------------------ failure kinds
 
-FAIL_KINDS = ["syntax", "type", "mixed-packages", "duplicate-set", "missing-constructor"]
+FAIL_KINDS = ["syntax", "type", "mixed-packages", "duplicate-set", "missing-constructor",
+              "syntax-in-imports", "syntax-in-imports-next-to-valid-package", "type-error-next-to-valid-package"]
 
 def render_failure(kind, prefix):
     """{relative path: source}, list of package patterns to pass to migrate"""
@@ -222,6 +223,18 @@ def render_failure(kind, prefix):
     if kind == "duplicate-set":
         return {a + "/types.go": types % "app", a + "/wire.go": hdr % "app" + good,
                 b + "/types.go": types % "app", b + "/wire.go": hdr % "app" + good}, ["./" + a, "./" + b]
+    if kind in ("syntax-in-imports", "syntax-in-imports-next-to-valid-package"):
+        # the syntax error sits in the import section of the only wire file of its package (the go tool then reports
+        # no imports at all for that package)
+        broken = '//go:build wireinject\n\npackage app\n\nimport "github.com/google/wire\n\n' + good
+        fs = {a + "/types.go": types % "app", a + "/wire.go": broken}
+        if kind.endswith("valid-package"):
+            fs.update({b + "/types.go": types % "app", b + "/wire.go": hdr % "app" + good.replace("SetA", "SetB")})
+            return fs, ["./" + b, "./" + a]
+        return fs, ["./" + a]
+    if kind == "type-error-next-to-valid-package":
+        return {a + "/types.go": types % "app", a + "/wire.go": hdr % "app" + "var SetA = wire.NewSet(NewMissing)\n\nfunc Init() *T {\n\twire.Build(SetA)\n\treturn nil\n}\n",
+                b + "/types.go": types % "app", b + "/wire.go": hdr % "app" + good.replace("SetA", "SetB")}, ["./" + b, "./" + a]
     if kind == "missing-constructor":
         return {a + "/types.go": types % "app", a + "/wire.go": hdr % "app" +
                 "var SetA = wire.NewSet(MakeU, wire.Bind(new(I), new(*U)))\n\nfunc Init() I {\n\twire.Build(SetA)\n\treturn nil\n}\n"}, ["./" + a]
